@@ -220,8 +220,21 @@ class Gen:
             self.hidden.discard(name)
         kind = self.pick(["let", "const"])
         annotated = self.chance(0.5) or t == "uint"
-        st = ("decl", kind, [(name, ANNOT[t] if annotated else None, init)])
+        vars_ = [(name, ANNOT[t] if annotated else None, init)]
         self.scopes[-1].append((name, t, kind, True))
+        # several declarators in ONE statement: each name is in scope for the initialisers that follow it (`let a = x, b = a + 1`), also when it hides an outer name
+        while self.chance(0.3) and len(vars_) < 3:
+            n2 = self.fresh()
+            if self.chance(0.6):
+                t2, init2 = t, ("ident", vars_[-1][0])
+            else:
+                t2 = self.pick(["bool", "int", "string", "int"])
+                init2 = self.typed(t2, d + 1) if t2 in ("int", "uint") else self.expr(t2, d + 1)
+            vars_.append((n2, ANNOT[t2] if (t2 == "uint" or self.chance(0.3)) else None, init2))
+            self.scopes[-1].append((n2, t2, kind, True))
+            t = t2
+            self.multi_decls = getattr(self, "multi_decls", 0) + 1
+        st = ("decl", kind, vars_)
         return st
 
     def block(self, d, ret_ty, n=None, clause=False):
@@ -360,6 +373,35 @@ class Gen:
             use.append(("expr", ("assign", ("member", ("ident", self.pick(["a", "b"])), PROP[t]), ("ident", c))))
         return ("block", [("decl", "const", [(c, None, ("ident", v))]), ("expr", ("assign", ("ident", v), newv))] + use)
 
+    def shadow_multi_block(self, d, ret_ty):
+        """{ let x = <new value>, y = <uses x>; use y } inside the scope of an OUTER x: the x read by y's initialiser is the one declared just before it in the same statement"""
+        cands = [(n, t) for n, (t, k, init) in self.visible().items() if init and t in ("int", "string", "bool", "double") and n not in self.hidden]
+        if ret_ty is not None and not self.handler:
+            cands = [c for c in cands if c[1] == ret_ty] or cands
+        if not cands:
+            return None
+        x, t = self.pick(cands)
+        self.hidden.add(x)
+        init = self.typed(t, d + 1) if t == "int" else self.expr(t, d + 1)
+        self.hidden.discard(x)
+        y = self.fresh()
+        use_x = {"int": ("binary", self.pick(["+", "-", "*"]), ("ident", x), ("int", self.rng.randrange(1, 9))), "string": ("binary", "+", ("ident", x), ("str", "!")),
+                 "bool": ("unary", "!", ("ident", x)), "double": ("binary", self.pick(["+", "*"]), ("ident", x), ("float", "2.5"))}[t]
+        kind = self.pick(["let", "const"])
+        vars_ = [(x, None, init), (y, None, use_x)]
+        if self.chance(0.3):
+            z = self.fresh()
+            vars_.append((z, None, ("ident", y)))
+            y = z
+        out = [("decl", kind, vars_)]
+        self.multi_decls = getattr(self, "multi_decls", 0) + 1
+        if self.handler:
+            out.append(("expr", ("call", ("member", ("ident", "console"), "log"), [("ident", y)])))
+            out.append(("expr", ("assign", ("member", ("ident", self.pick(["a", "b"])), PROP[t]), ("ident", y))))
+        elif ret_ty == t:
+            out.append(("return", ("ident", y)))
+        return ("block", out)
+
     def reread_block(self, d):
         """the same property read before and after a slot call that changes it (straight-line code, one basic block): the second read is a NEW read"""
         o = self.pick(["a", "b", "sub"])
@@ -381,6 +423,10 @@ class Gen:
             ss = self.shadow_switch(d, ret_ty)
             if ss is not None:
                 return ss
+        if 0.14 <= r < 0.19:
+            sm = self.shadow_multi_block(d, ret_ty)
+            if sm is not None:
+                return sm
         if r < 0.3:
             return self.decl(d)
         if r < 0.45 and d < self.max_depth:
